@@ -25,7 +25,7 @@ ASSUMPTIONS = ["wire length is measured between entity positions (centres), as t
 
 
 def budget(tier):
-    return {"examples": 1200 if tier == "quick" else 8000, "wall_s": 120 if tier == "quick" else 1700}
+    return {"examples": 1200 if tier == "quick" else 8000, "wall_s": 120 if tier == "quick" else 900}
 
 
 @st.composite
